@@ -24,6 +24,8 @@ interleaving of AddFlow / Rollover with or without sink / EmitFlowCollections):
   to the sink twice; a built
   collection carries for each key the sum of its windows inside the collection's time window
   (`emitted_window_complete_partial`).
+* statistics: `Statistics` over any range = per-key sums over the log of accepted flows of the retained buckets
+  in range (`statistics_eq_sum_retained`; time-series mode and PolicyMatch filters are not modelled).
 KNOWN FINDING kept: late flows accepted into an already emitted window are counted by `List` but never
 emitted (`late_flow_accepted`, `late_flow_never_emitted`; AddFlow only logs a warning).
 -/
@@ -193,6 +195,33 @@ theorem list_complete (n : Nat) (interval now : Int) (pushAfter agg : Nat) (hn :
     ∃ x ∈ s.1.list gte lt, x.1 = e.1 := by
   intro s he hlt hc hin
   exact list_complete_of_cinv (grun_cinv (newRing_cinv n interval now pushAfter agg hn hi) ops) gte lt e he i hlt hc hin
+
+/-! ## statistics -/
+
+/-- `statistics_eq_sum_retained` (+ completeness): in every reachable state, for every statistic type
+(packets / bytes / live connections), grouping (per policy / per policy rule and direction) and time range,
+`BucketRing.Statistics` either fails because a bound lies outside the retained history, or returns exactly
+`statsOfFlows` — the per-result-key sums of the per-flow contributions (`flowContribs`: one contribution per
+distinct policy hit of the flow, into the allowed/denied/passed in/out counters) — evaluated on the ghost LOG
+of accepted flows, restricted bucket by bucket to the ring buckets the range covers (from the bucket containing
+the start, `0` = oldest, up to but excluding the one containing the end, `0` = the head bucket). Buckets that
+were rolled over contribute nothing: their flows are no longer in any ring bucket's interval. Equality of the
+whole result lists gives both directions (no key missing, no key extra). The aggregation function itself is the
+specification here (a plain sum per key); it is tied to stats.go by the correspondence check. -/
+theorem statistics_eq_sum_retained (n : Nat) (interval now : Int) (pushAfter agg : Nat) (hn : 0 < n) (hi : 0 < interval)
+    (ops : List Op) (typ : Nat) (groupByRule : Bool) (gte lt : Int) :
+    let s := grun (newRing n interval now pushAfter agg, []) ops
+    s.1.stats typ groupByRule gte lt =
+      (s.1.statRange gte lt).map (fun idxs =>
+        statsOfFlows typ groupByRule (idxs.map (fun i => logOf s.2 (s.1.bucket i)))) := by
+  intro s
+  have hs : SInv s.1 s.2 := grun_sinv (newRing_sinv n interval now pushAfter agg hn hi) ops
+  exact stats_eq_log hs typ groupByRule gte lt (fun idxs h => statRange_lt hs.g.contig gte lt idxs h)
+
+-- non-vacuity / the recycled-slot scenario of seeded defect C32-3: key 0 sends 7 at t=1334; after the ring has
+-- wrapped completely (8 rollovers of a 7-slot ring) the packet statistics over the whole history are empty again
+example : ((grun (newRing 7 5 1333 0 2, []) [.add 0 1334 7]).1.stats 0 false 0 0) = some [((1, 0, 0, 0), ⟨7, 14, 0, 0, 0, 0⟩)] := by decide
+example : ((grun (newRing 7 5 1333 0 2, []) ([.add 0 1334 7] ++ List.replicate 8 (.roll false))).1.stats 0 false 0 0) = some [] := by decide
 
 /-! ## emission -/
 
